@@ -17,6 +17,7 @@ from sa.pyfront import Program
 from sa.symex import Interp
 
 RULES = {
+    "R-C13-g": "the grand total in the corner of every sub-cube's regions is the all-rows instance of the per-cell value: it depends on the rows only, not on the extra axes of the dimension it is read from",
     "R-C13-f": "each sub-cube writes exactly its own block: inside a task every region is addressed through region[tuple(its own coordinates)], and the unsliced region is used only when there is a single task (imported from the C16 analysis)",
     "R-C13-a": "result shape = <extra axes of each dimension, in dims order then axis order> ++ <one category extent per dimension> ++ <fact columns>, for the attributes that flow into returned arrays",
     "R-C13-b": "slice coordinates are produced in axis order (slices1d peels the last axis and PREPENDS its coordinate; xcube.product enumerates range(extent) per extra axis in order)",
@@ -415,6 +416,15 @@ def main(tier):
             k += 1
             rep.add("R-C13-f", o.where, "[%s] %s" % (o.rule, o.construct), o.status, o.detail, True, o.witness)
     rep.floor("R-C13-f", 4, k)
+    # R-C13-g: the grand total seeded in the corner of EVERY sub-cube is the all-rows instance of the per-cell value, i.e. it
+    # counts rows, never rows x extra extents (every block is differenced from its own corner): the corner/cell rule of the
+    # aggregate algebra, where `X.size` / prod(X.shape) normalise to ROWSxCOLUMNS and X.shape[0] to the row count
+    from sa import aggtables as AT
+    CG = AT.Collector()
+    ng = AT.rule_corner_cell(prog, CG, "R-C13-g")
+    for rule, status, where, cons, detail, wit in CG.items:
+        rep.add(rule, where, cons, status, detail, True, wit if status != "VIOLATED" else {"inputs": "ccube([<index with extra axes>, ...]).count(): the all-common cell of every block is too large by rows x (extra extents - 1)"})
+    rep.floor("R-C13-g", 30, ng)
     return rep.finish()
 
 
